@@ -6,6 +6,7 @@
  * usage: drv_dtls <cases.txt> <out.ndjson>
  *   X id=<n> cid=<client identity> ckey=<client key> sk=<id:key,id:key,...> hint=<server hint> acc=<1: client accepts the hint>
  *     nq=<requests queued during the handshake> obs=<k: the k-th of them carries Observe (per-request state in the library); 9: all of them>
+ *     bad7=<code>: once everything queued has been answered the client's lower layer sends a Confirmable message with this (class-7) code
  *     shold=1: the server application keeps a reference on the session of the first request;  inj=3 (with rel): cleartext CoAP from the client's
  *     address after the client has closed its session
  *     tk2=<1: two-byte tokens (i, 0xee) instead of the one-byte token i> nonq=<k: the k-th queued request is Non-confirmable; 9: all> inj=<0 | 1 cleartext CoAP from a new peer | 2 cleartext CoAP from the client's address>
@@ -27,7 +28,7 @@ static coap_context_t *sctx, *cctx;
 static coap_session_t *csess;
 static coap_address_t srv_addr;
 static char cid[64], ckey[64], hint[64], skid[MAXK][64], skkey[MAXK][64];
-static int nsk, acc, nq, inj, rel, idcb, emitted, nsni, muted, obsq, tk2, nonq, shold;
+static int nsk, acc, nq, inj, rel, idcb, emitted, nsni, muted, obsq, tk2, nonq, shold, bad7;
 static coap_session_t *held_s;
 static char sni[64], warm[64], snin[MAXK][64], snikey[MAXK][64];
 static coap_dtls_spsk_info_t sni_info;
@@ -112,6 +113,15 @@ static int h_cevent(coap_session_t *s, const coap_event_t ev) {
   fprintf(sim_trace, "{\"e\":\"Ev\",\"side\":\"c\",\"ev\":%d,\"t\":%llu}\n", (int)ev, (unsigned long long)sim_now);
   return 0;
 }
+/* a signalling message reached the protocol layer (class 7 codes have no business on a datagram transport, DTLS included) */
+static void h_sping(coap_session_t *s, const coap_pdu_t *rcv, const coap_mid_t mid) {
+  (void)s; (void)mid;
+  if (!muted) fprintf(sim_trace, "{\"e\":\"SrvSignal\",\"code\":%d}\n", coap_pdu_get_code(rcv));
+}
+static void h_cpong(coap_session_t *s, const coap_pdu_t *rcv, const coap_mid_t mid) {
+  (void)s; (void)mid;
+  if (!muted) fprintf(sim_trace, "{\"e\":\"CliSignal\",\"code\":%d}\n", coap_pdu_get_code(rcv));
+}
 static int h_sevent(coap_session_t *s, const coap_event_t ev) {
   (void)s;
   if (muted) return 0;
@@ -172,6 +182,7 @@ static void run_case(int id) {
   spsk.psk_info.key.length = strlen(skkey[0]);
   coap_context_set_psk2(sctx, &spsk);
   coap_register_event_handler(sctx, h_sevent);
+  coap_register_ping_handler(sctx, h_sping);
   sim_addr(&srv_addr, "127.0.0.1", 0);
   ep = coap_new_endpoint(sctx, &srv_addr, COAP_PROTO_DTLS);
   if (!ep) { fputs("{\"e\":\"Skip\",\"why\":\"no DTLS endpoint\"}\n{\"e\":\"End\"}\n", sim_trace); coap_free_context(sctx); sctx = NULL; return; }
@@ -185,6 +196,7 @@ static void run_case(int id) {
     coap_context_set_block_mode(cctx, COAP_BLOCK_USE_LIBCOAP);
   coap_register_response_handler(cctx, h_resp);
   coap_register_nack_handler(cctx, h_nack);
+  coap_register_pong_handler(cctx, h_cpong);
   coap_register_event_handler(cctx, h_cevent);
   sim_add_node(cctx);
   memset(&cpsk, 0, sizeof(cpsk));
@@ -266,6 +278,20 @@ static void run_case(int id) {
       sim_inject(&was, &srv_addr, b, 7, 0, -1);
     }
   }
+  if (bad7 && csess) {
+    /* a message with a class-7 code on the (established) DTLS session: the API refuses to send one, so it is handed to the layer below */
+    coap_pdu_t *pdu;
+    uint8_t tk = 0x7e;
+    sim_run(sim_now + 20000);
+    pdu = coap_pdu_init(COAP_MESSAGE_CON, (coap_pdu_code_t)bad7, coap_new_message_id(csess), 64);
+    if (pdu) {
+      coap_add_token(pdu, 1, &tk);
+      fprintf(sim_trace, "{\"e\":\"Bad7\",\"code\":%d}\n", bad7);
+      coap_lock_lock(cctx, return);
+      coap_send_internal(csess, pdu);
+      coap_lock_unlock(cctx);
+    }
+  }
   sim_run(sim_now + 700000);
   fprintf(sim_trace, "{\"e\":\"Quiet\",\"t\":%llu}\n", (unsigned long long)sim_now);
   in_teardown = 1;
@@ -310,6 +336,7 @@ int main(int argc, char **argv) {
       buf[0] = 0; field(line, " tk2=", buf, sizeof(buf)); tk2 = atoi(buf);
       buf[0] = 0; field(line, " nonq=", buf, sizeof(buf)); nonq = atoi(buf);
       buf[0] = 0; field(line, " shold=", buf, sizeof(buf)); shold = atoi(buf);
+      buf[0] = 0; field(line, " bad7=", buf, sizeof(buf)); bad7 = atoi(buf);
       field(line, " rel=", buf, sizeof(buf)); rel = atoi(buf);
       field(line, " idcb=", buf, sizeof(buf)); idcb = atoi(buf);
       field(line, " drop=", buf, sizeof(buf));
